@@ -34,7 +34,12 @@ def main():
     rec = {'id': f'{pid}-{a.tag}{k}', 'property': pid, 'needs_to_manifest': meta.get('needs_to_manifest')}
     try:
         sh(f'rsync -a --exclude .git --exclude htmlcov --exclude test-output /repo/ {d}/')
-        shutil.copy(os.path.join(wt, f'demo{k}.py'), os.path.join(d, 'demo.py'))
+        # demos written in a worktree may assert that concepts is imported from that worktree: the scratch copy has
+        # another path, so such single-line path assertions are neutralised (the copy is run from its own directory)
+        import re
+        src = open(os.path.join(wt, f'demo{k}.py')).read()
+        src = re.sub(r'(?m)^(\s*)assert [^\n]*__file__[^\n]*$', r'\1pass', src)
+        open(os.path.join(d, 'demo.py'), 'w').write(src)
         r0 = sh('/venv/bin/python demo.py', cwd=d)
         rec['demo_clean_exit'] = r0.returncode
         rp = sh(f'patch -p1 < {wt}/patch{k}.diff', cwd=d)
@@ -60,7 +65,7 @@ def main():
             dst = os.path.join(HERE, 'seeded', f'{pid}-{a.tag}{k}')
             os.makedirs(dst, exist_ok=True)
             shutil.copy(os.path.join(wt, f'patch{k}.diff'), os.path.join(dst, 'patch.diff'))
-            shutil.copy(os.path.join(wt, f'demo{k}.py'), os.path.join(dst, 'demo.py'))
+            shutil.copy(os.path.join(d, 'demo.py'), os.path.join(dst, 'demo.py'))
             meta['ran'] = {'tests_with_change': rec['tests_patched'], 'demo_exit_with_change': r1.returncode,
                            'demo_exit_without_change': r0.returncode,
                            'checks_quick': {c: {'exit': v['exit'], 'violations': v['violations']}
